@@ -43,6 +43,9 @@ type c17Op struct {
 	// still busy with the first of them (the harness holds it in the logger call that reports an unknown job, then
 	// queues the rest and lets go).  Every one of them is an update: the outcome is that of applying them one by one.
 	Pre []map[string][]grpSpec `json:"pre,omitempty"`
+	// HoldResult (update, followed by a reload): the translated result of this update is still on its way to the
+	// explorer (the goroutine that forwards results is busy) when the reload of the next step happens
+	HoldResult bool `json:"holdResult,omitempty"`
 }
 
 // holdHook blocks the discovery loop inside a warning it logs, while armed.
@@ -317,10 +320,21 @@ func runC17(rec *vkit.Recorder, c *c17Case) []vkit.Violation {
 	sdCh := make(chan map[string][]*targetgroup.Group, 8)
 	go func() { _ = td.Run(ctx, sdCh) }()
 	forwarded := make(chan struct{}, 1000)
+	var fwdMu sync.Mutex
+	var fwdHold, fwdRecvd chan struct{}
+	resultOnItsWay := false // the latest update's result has not reached the explorer yet (held, see HoldResult)
 	go func() {
 		for {
 			select {
 			case ts := <-td.ActiveTargetsChan():
+				// (the result may be on its way for a while: the goroutine that hands it to the explorer is busy)
+				fwdMu.Lock()
+				h, r := fwdHold, fwdRecvd
+				fwdMu.Unlock()
+				if h != nil {
+					r <- struct{}{}
+					<-h
+				}
 				exp.UpdateTargets(ts)
 				forwarded <- struct{}{}
 			case <-ctx.Done():
@@ -416,6 +430,7 @@ func runC17(rec *vkit.Recorder, c *c17Case) []vkit.Violation {
 	flagReloadKeep, nt := false, false
 	flagReloadDuring := false
 	flagQueued := false
+	flagHeld := false
 
 	verify := func(step int, what string) {
 		act, drop := td.ActiveTargets(), td.DropTargets()
@@ -443,7 +458,7 @@ func runC17(rec *vkit.Recorder, c *c17Case) []vkit.Violation {
 		for j, ts := range act {
 			for _, t := range ts {
 				has := exp.Get(t.ShardTarget.Hash) != nil
-				if exploreJobs[j] && !has {
+				if exploreJobs[j] && !has && !resultOnItsWay {
 					add("C17/explorer-misses-target", "step %d (%s): target %d of job %q is active but unknown to the explorer", step, what, t.ShardTarget.Hash, j)
 				}
 			}
@@ -525,6 +540,22 @@ func runC17(rec *vkit.Recorder, c *c17Case) []vkit.Violation {
 				}
 				hook.mu.Unlock()
 			}
+			// the targets this update delivers for jobs that the reload landing inside it removes
+			removedHashes := map[uint64]string{}
+			if op.HasDuring {
+				for j, gs := range op.Update {
+					if configured[j] && !during[j] {
+						fr := newRunner()
+						_ = fr.d.ApplyConfig(cm.ConfigInfo())
+						if _, err := fr.feed(map[string][]*targetgroup.Group{j: groupsOf(gs)}); err == nil {
+							for _, t := range fr.d.ActiveTargets()[j] {
+								removedHashes[t.ShardTarget.Hash] = j
+							}
+						}
+						fr.close()
+					}
+				}
+			}
 			setMustHave(keep)
 			if len(preSD) > 0 {
 				flagQueued = true
@@ -560,16 +591,30 @@ func runC17(rec *vkit.Recorder, c *c17Case) []vkit.Violation {
 					return vs
 				}
 			} else {
+				if op.HoldResult && i+1 < len(c.Ops) && c.Ops[i+1].Kind == "reload" {
+					fwdMu.Lock()
+					fwdHold, fwdRecvd = make(chan struct{}), make(chan struct{}, 1)
+					fwdMu.Unlock()
+					resultOnItsWay = true
+				}
 				select {
 				case sdCh <- sd:
 				case <-time.After(30 * time.Second):
 					add("C17/update-never-taken", "step %d: the discovery loop did not take the update of %d jobs within 30s", i, len(sd))
 				}
 			}
-			select {
-			case <-forwarded:
-			case <-time.After(30 * time.Second):
-				add("C17/update-never-published", "step %d: the update of %d jobs was not published within 30s (the translation of an update takes milliseconds)", i, len(sd))
+			if resultOnItsWay {
+				select {
+				case <-fwdRecvd:
+				case <-time.After(30 * time.Second):
+					add("C17/update-never-published", "step %d: the update of %d jobs was not published within 30s (the translation of an update takes milliseconds)", i, len(sd))
+				}
+			} else {
+				select {
+				case <-forwarded:
+				case <-time.After(30 * time.Second):
+					add("C17/update-never-published", "step %d: the update of %d jobs was not published within 30s (the translation of an update takes milliseconds)", i, len(sd))
+				}
 			}
 			if op.HasDuring {
 				hook.mu.Lock()
@@ -581,6 +626,13 @@ func runC17(rec *vkit.Recorder, c *c17Case) []vkit.Violation {
 				}
 				if fired {
 					flagReloadDuring = true
+				}
+				still := td.ActiveTargetsByHash()
+				for h, j := range removedHashes {
+					if _, ok := still[h]; !ok && exp.Get(h) != nil {
+						add("C17/explorer-keeps-removed-job/reload-inside-an-update", "step %d: a reload that removes job %q landed while an update with targets of that job was being translated (fired inside the translation: %v); afterwards target %d of that job is still known to the explorer", i, j, fired, h)
+						break
+					}
 				}
 				for j := range next {
 					if !during[j] {
@@ -647,6 +699,21 @@ func runC17(rec *vkit.Recorder, c *c17Case) []vkit.Violation {
 			if err := ld.load(c17Config(op.Jobs)); err != nil {
 				add("C17/reload-fails", "step %d: %v", i, err)
 			}
+			if resultOnItsWay {
+				// now the result of the previous update arrives at the explorer
+				flagHeld = true
+				fwdMu.Lock()
+				h := fwdHold
+				fwdHold, fwdRecvd = nil, nil
+				fwdMu.Unlock()
+				close(h)
+				select {
+				case <-forwarded:
+				case <-time.After(30 * time.Second):
+					add("C17/update-never-published", "step %d: the result of the previous update did not reach the explorer within 30s", i)
+				}
+				resultOnItsWay = false
+			}
 			configured = nc
 			model = next
 			for j := range exploreJobs {
@@ -674,7 +741,7 @@ func runC17(rec *vkit.Recorder, c *c17Case) []vkit.Violation {
 		verify(i, op.Kind)
 		// explorer tracks nothing but the targets of the latest update
 		for h, js := range lastUpdateHashes {
-			if exp.Get(h) == nil {
+			if exp.Get(h) == nil && !resultOnItsWay {
 				add("C17/explorer-lost-target", "step %d (%s): target %d of job(s) %v (latest update, still configured) is unknown to the explorer", i, op.Kind, h, js)
 				break
 			}
@@ -708,6 +775,10 @@ func runC17(rec *vkit.Recorder, c *c17Case) []vkit.Violation {
 	}
 	b, _ := json.Marshal(c)
 	var cls []string
+	if flagHeld {
+		cls = append(cls, "reload-while-the-result-of-an-update-is-on-its-way-to-the-explorer")
+		nt = true
+	}
 	if flagQueued {
 		cls = append(cls, "several-updates-waiting-in-the-channel-at-once")
 		nt = true
@@ -858,6 +929,9 @@ func genC17(t *rapid.T) *c17Case {
 			c.Ops = append(c.Ops, op)
 		case 1:
 			cur = subset(l + "-jobs")
+			if k := len(c.Ops) - 1; k >= 0 && c.Ops[k].Kind == "update" && !c.Ops[k].HasDuring && len(c.Ops[k].Pre) == 0 && rapid.IntRange(0, 2).Draw(t, l+"-holdResult") == 0 {
+				c.Ops[k].HoldResult = true
+			}
 			c.Ops = append(c.Ops, c17Op{Kind: "reload", Jobs: cur})
 		default:
 			c.Ops = append(c.Ops, c17Op{Kind: "read"})
